@@ -1,7 +1,7 @@
 //@ unit path_relative
 //@ props C16 C12 C10
 // path::relative(path, base): the navigation from base to path, at component level.
-//@ prelude base errors iter path_comps
+//@ prelude base errors iter path_comps spec_clean
 
 // R4: `comps.extend(x.by_ref())` appends everything the iterator has left and exhausts it (std docs of Extend / by_ref)
 #[verifier::external_body]
@@ -95,3 +95,101 @@ pub fn relative(path: &PathBuf, base: &PathBuf) -> (r: RvResult<PathBuf>)
         path.comps() != base.comps() ==> exists|k: int| is_cpl(path.comps(), base.comps(), k)
             && r->Ok_0.comps() == collect_spec(Seq::empty(), rel_seq(path.comps(), base.comps(), k)),     //@ clause relative.navigation [C16,C10]
 //@ body
+
+
+// =====================================================================================================================
+// The navigation law of property C16: for clean absolute p != b, joining relative(p, b) onto b and cleaning gives p back;
+// the result consists of |b|-k `..` followed by normal components only (k = length of the common prefix).
+pub open spec fn abs_form(c: Comps) -> bool { c.len() > 0 && c[0] == Component::RootDir && forall|i: int| 0 < i < c.len() ==> (#[trigger] c[i]) is Normal }
+
+pub proof fn lemma_fold_append(st: Comps, s1: Comps, s2: Comps)
+    ensures fold(st, s1 + s2) == fold(fold(st, s1), s2)
+    decreases s1.len()
+{
+    if s1.len() == 0 { assert(s1 + s2 =~= s2); } else {
+        assert((s1 + s2)[0] == s1[0]);
+        assert((s1 + s2).skip(1) =~= s1.skip(1) + s2);
+        lemma_fold_append(step(st, s1[0]), s1.skip(1), s2);
+    }
+}
+// pushing normal names only appends them
+pub proof fn lemma_fold_normals(st: Comps, s: Comps)
+    requires forall|i: int| 0 <= i < s.len() ==> (#[trigger] s[i]) is Normal
+    ensures fold(st, s) == st + s
+    decreases s.len()
+{
+    if s.len() == 0 { assert(st + s =~= st); } else {
+        assert(s[0] is Normal);
+        assert(step(st, s[0]) == st.push(s[0]));
+        assert forall|i: int| 0 <= i < s.skip(1).len() implies (#[trigger] s.skip(1)[i]) is Normal by { assert(s.skip(1)[i] == s[i + 1]); }
+        lemma_fold_normals(st.push(s[0]), s.skip(1));
+        assert(st.push(s[0]) + s.skip(1) =~= st + s);
+    }
+}
+// n `..` on top of an absolute clean stack pop its last n names (n < |st|)
+pub proof fn lemma_fold_pops(st: Comps, n: int, rest: Comps)
+    requires abs_form(st), 0 <= n < st.len()
+    ensures fold(st, rep(Component::ParentDir, n) + rest) == fold(st.take(st.len() - n), rest)
+    decreases n
+{
+    let r = rep(Component::ParentDir, n);
+    if n == 0 { assert(r + rest =~= rest); assert(st.take(st.len() as int) =~= st); } else {
+        assert((r + rest)[0] == Component::ParentDir);
+        assert(st.last() is Normal);
+        assert(step(st, Component::ParentDir) == st.drop_last());
+        assert((r + rest).skip(1) =~= rep(Component::ParentDir, n - 1) + rest);
+        let st2 = st.drop_last();
+        assert(abs_form(st2)) by { assert forall|i: int| 0 < i < st2.len() implies (#[trigger] st2[i]) is Normal by { assert(st2[i] == st[i]); } }
+        lemma_fold_pops(st2, n - 1, rest);
+        assert(st2.take(st2.len() - (n - 1)) =~= st.take(st.len() - n));
+    }
+}
+pub proof fn lemma_abs_form_is_clean(c: Comps)
+    requires abs_form(c)
+    ensures clean_form(c), stack_ok(c), fold(Seq::empty(), c) == c
+{
+    assert(Seq::<Component>::empty() + c =~= c);
+    lemma_fold_fix(Seq::empty(), c);
+}
+pub proof fn theorem_relative_navigates(p: Comps, b: Comps, k: int)
+    requires abs_form(p), abs_form(b), p != b, is_cpl(p, b, k)
+    ensures
+        k >= 1,
+        // the returned path is the component list itself: |b|-k `..` then the rest of p, normal components only
+        collect_spec(Seq::empty(), rel_seq(p, b, k)) == rel_seq(p, b, k),                                                //@ clause relative.result_is_dotdots_then_normals [C16]
+        forall|i: int| 0 <= i < b.len() - k ==> rel_seq(p, b, k)[i] == Component::ParentDir,
+        forall|i: int| b.len() - k <= i < rel_seq(p, b, k).len() ==> (#[trigger] rel_seq(p, b, k)[i]) is Normal,
+        // joining it onto b and cleaning yields p
+        spec_clean(join_spec(b, rel_seq(p, b, k))) == p,                                                                 //@ clause relative.clean_base_join_result_is_path [C16,C10]
+{
+    // both start with the root, so the common prefix is at least 1
+    if k == 0 { assert(p[0] == b[0]); assert(false); }
+    let out = rel_seq(p, b, k);
+    let n = b.len() - k;
+    let tail = p.skip(k);
+    assert forall|i: int| 0 <= i < tail.len() implies (#[trigger] tail[i]) is Normal by { assert(tail[i] == p[k + i]); }
+    assert forall|i: int| 0 <= i < out.len() implies out[i] != Component::RootDir && (out[i] != Component::CurDir || (i == 0 && Seq::<Component>::empty().len() == 0)) by {
+        if i >= n { assert(out[i] == tail[i - n]); }
+    }
+    assert(out.len() > 0) by { if n == 0 && tail.len() == 0 { assert(p.take(k) =~= p); assert(b.take(k) =~= b); } }
+    // collecting: plain components are appended; the first one is not CurDir
+    assert(out[0] != Component::CurDir) by { if n == 0 { assert(out[0] == tail[0]); } }
+    assert forall|i: int| 0 <= i < out.len() implies out[i] != Component::RootDir && (out[i] != Component::CurDir || (i == 0 && (Seq::<Component>::empty()).len() == 0)) by { if i >= n { assert(out[i] == tail[i - n]); } }
+    lemma_collect_plain(Seq::empty(), out);
+    assert(Seq::<Component>::empty() + out =~= out);
+    assert forall|i: int| b.len() - k <= i < out.len() implies (#[trigger] out[i]) is Normal by { assert(out[i] == tail[i - n]); }
+    // join: out is relative and does not start with `.`
+    assert(join_spec(b, out) == b + out);
+    lemma_abs_form_is_clean(b);
+    lemma_fold_append(Seq::empty(), b, out);
+    lemma_fold_pops(b, n, tail);
+    assert(b.take(b.len() - n) =~= b.take(k));
+    lemma_fold_normals(b.take(k), tail);
+    assert(p.take(k) + p.skip(k) =~= p);
+    assert(fold(Seq::empty(), b + out) == p);
+}
+//@ obligation lemma_fold_append props=C16
+//@ obligation lemma_fold_normals props=C16
+//@ obligation lemma_fold_pops props=C16
+//@ obligation lemma_abs_form_is_clean props=C16
+//@ obligation theorem_relative_navigates props=C16,C10
